@@ -15,6 +15,14 @@
 (*    Target's labels at or past it), and the later names could only compress    *)
 (*    against labels first seen in X.  v = <<position, k>>.  These vectors carry *)
 (*    no octets (nobytes): C01's modes already check the octets of every type.   *)
+(* "sizes"     a caller may hand the packer a record whose stored length field *)
+(*    (SaltLength, HashLength, HitLength, PublicKeyLength, KeySize, OtherLen,     *)
+(*    MACSize) disagrees with the data it sizes: 0, one less, three more.  Such a *)
+(*    record is not well-formed on the wire, but it "can be packed" (the library  *)
+(*    writes the fields as given, which is what EncRdata does too), so C08's      *)
+(*    clauses apply: Len() and Len(rr) must cover what Pack() writes.  Flagged    *)
+(*    loose; never decoded.  v = <<type, sized entry index (0: all), data length, *)
+(*    stored length>>.                                                            *)
 EXTENDS Gen_WireRR, CompressLen
 
 StTarget == << <<117, 110, 105, 113>>, <<115, 116, 114>>, <<116>> >>          \* uniq.str.t.
@@ -57,8 +65,23 @@ StMsg(pos, k) ==
       off1 == StTargetOff(StBuild(t, i, 1))           \* with one octet of padding
   IN StBuild(t, i, 1 + (16384 - k) - off1)
 
+SizedIdx(t) == { i \in 1..Len(FieldsOf(t)) : "sz" \in DOMAIN FieldsOf(t)[i] /\ FieldsOf(t)[i].k # "prefixaddr" }
+SizedTypes  == { t \in DOMAIN Layout : SizedIdx(t) # {} }
+SzData(n)   == [j \in 1..n |-> 160 + j]
+SzMsg(t, i, n, stored) ==
+  LET es == FieldsOf(t)
+      base == Fix(es, BaseF(es))
+      f == IF i = 0        \* every sized member: n octets of data, the same stored length
+           THEN [x \in DOMAIN base |->
+                   IF \E j \in SizedIdx(t) : es[j].n = x THEN SzData(n)
+                   ELSE IF \E j \in SizedIdx(t) : es[j].sz = x THEN stored ELSE base[x]]
+           ELSE [base EXCEPT ![es[i].n] = SzData(n), ![es[i].sz] = stored]
+  IN One1(t, f)
+
 -----------------------------------------------------------------------------
-InitL == \/ Mode # "straddle" /\ Init
+InitL == \/ Mode \notin {"straddle", "sizes"} /\ Init
+         \/ Mode = "sizes" /\ \E t \in SizedTypes : \E i \in SizedIdx(t) \cup {0}, n \in {3, 20} : \E stored \in {0, n - 1, n + 3} :
+                                 v = <<t, i, n, stored>>
          \/ Mode = "straddle" /\ \E pos \in (IF Tier = 0 THEN StQuick ELSE 1..Len(StPositions)), x \in 1..Len(StKs) :
                                     InShard(pos) /\ v = <<pos, StKs[x]>>
 
@@ -71,6 +94,11 @@ OutL ==
     /\ Assert(WFMsg(m) /\ StTargetOff(m) = 16384 - v[2], <<"straddle vector misplaced", v>>)
     /\ Emit([g |-> Mode, v |-> v, msg |-> m, ok |-> TRUE, bytes |-> <<>>, nobytes |-> TRUE, rroff |-> RROffsets(m),
              lenmsg |-> LenMsg(m), plain |-> PlainMsg(m), refuse |-> FALSE] @@ Model(m))
+  ELSE IF Mode = "sizes" THEN
+    LET m == SzMsg(v[1], v[2], v[3], v[4]) IN
+    /\ Assert(~WFMsg(m) /\ IsOctets(EncMsg(m)), <<"sizes vector is not what it is meant to be", v>>)
+    /\ Emit([g |-> Mode, v |-> v, msg |-> m, ok |-> TRUE, bytes |-> EncMsg(m), loose |-> TRUE, rroff |-> RROffsets(m),
+             lenmsg |-> LenMsg(m), plain |-> FALSE, refuse |-> FALSE])
   ELSE LET m == Case  vec == Vector(m) IN
     /\ Assert(MayBeIllFormed \/ WFMsg(m), <<"ill-formed vector", Mode, v>>)
     /\ Emit(IF vec.ok THEN vec @@ Model(m) ELSE vec)
